@@ -73,6 +73,8 @@ def gen_long(spec):
     if not spec['cont_L2']:
         df['L2'] = df['L2'].astype(int)
         df['lag_L2'] = df['lag_L2'].astype(int)
+    if spec.get('int_lag'):
+        df['lag_L2'] = df['lag_L2'].round().astype(int)
     if spec.get('float_time'):          # whole-number times stored as floats (t_max then comes out of np.max as a float)
         df['t_in'] = df['t_in'].astype(float)
         df['t_out'] = df['t_out'].astype(float)
@@ -181,6 +183,8 @@ def gen_spec(rng, k, quick):
     spec['t_max'] = rng.choice([None, None, None, None, 1, 2, 2, 'beyond', 'beyond'])
     spec['itt_restriction'] = rng.random() < 0.2
     spec['float_time'] = rng.random() < 0.15
+    # a continuous covariate whose lagged copy is STORED as whole numbers (lab counts, shift(fill_value=0), ...)
+    spec['int_lag'] = bool(cont and spec['lags'] in ('simple', 'chain') and rng.random() < 0.6)
     return spec
 
 
@@ -775,7 +779,7 @@ def evaluate(ctx, work, exprs, fails, preamble, shard, tag='c13', detail=True):
             ctx.count('low_memory:%s' % lm)
             ctx.count('records', len(res['po']))
         if detail:
-            for k in ('plan', 'covs', 'lags', 'cens', 't_max', 'spy', 'cont_L2', 'weights', 'index', 'paired', 'float_time'):
+            for k in ('plan', 'covs', 'lags', 'cens', 't_max', 'spy', 'cont_L2', 'weights', 'index', 'paired', 'float_time', 'int_lag'):
                 ctx.count('%s:%s' % (k, spec.get(k)))
             ctx.count('sample<=50' if spec['sample'] <= 50 else 'sample<=150' if spec['sample'] <= 150 else 'sample=300')
             ctx.sample({'config': describe(spec, jobs[0][0]), 'steps': T, 'at_risk_per_step': obs['sizes'], 'rows_out': len(jobs[0][2]['po']),
